@@ -65,7 +65,7 @@ CLAIMED = {
         text="plain accept = Accepts(kinds as lexed) and semantic accept => Accepts for sentences, 10^4 substitutions/mutations, statements followed by more tokens and all token-kind sequences up to length 3 (quick: length 2 + 2% sample); the outcome and extracted meaning (type, graphs, data, clauses, filters, projections, group/order, HAVING tokens, bounds, limit, construct clauses) of a probe statement after every history (40/160 statements cut at every token, whole, random histories <= 6) equals its meaning on a fresh parser.",
         note="Deviations are classified mechanically: AcceptsPrefix evaluated by TLC; closure family found by delta debugging on the real hooks. Probes whose fresh meaning is not deterministic are open. Trusted: TLC, harness/gram, meaning projection in parsedrv."),
     "C16": dict(cat="model_checking", ref="DESIGN 5/C16",
-        technique="LexerStream.tla stream monitor (ordered non-overlapping substrings, one terminal token last, closed) model-checked on its own and used by TLC to validate token streams recorded from lexer.New (LexerTrace.tla), plus relational events SameKinds (case / white space variants) and OneToken (printed values)",
+        technique="LexerStream.tla stream monitor (ordered non-overlapping substrings, one terminal token last, closed) model-checked on its own and used by TLC to validate token streams recorded from lexer.New (LexerTrace.tla), plus relational events SameKinds (case / white space variants) and OneToken (printed values); white space beyond ASCII (runes of two and three bytes) between tokens",
         text="Every string of length <= 4/5 over a 12-symbol alphabet (22 621 / 271 453 inputs) with channel capacities 0,1,2,8, seeded random and mutated statements, grammar-generated statements with letter-case, white-space and compact-spacing variants, and ~490 printed nodes/predicates/bounds/literals/bindings/blank nodes built with the real constructors and printers; watchdog turns non-termination into an event. Exact tokenisation is deliberately not specified.",
         note="Known findings: text ending in backslash, id starting with @[ or ^^type:, node type containing '>'. White space between a filter function and '(' is treated as part of the notation (the repository's tests require 'latest (' to be rejected). Values with embedded quotes are open."),
     "C08": dict(cat="model_checking", ref="DESIGN 5/C08",
